@@ -90,6 +90,8 @@ def run_c17(prop, tier, seed, replay=None):
                 v.add_tlc("Lifecycle_%s_%s.cfg" % (s1, s2), r)
         reps = 1 if tier == "quick" else 12
         scen = [{"kind": "lifecycle", "steps": [{"op": op, "stop": stop}]} for _ in range(reps) for op in OPS for stop in ("dead", "behind", "ahead")]
+        scen += [{"kind": "lifecycle", "steps": [{"op": "Backlog", "stop": "behind"}]} for _ in range(2 * reps)]
+        scen += [{"kind": "lifecycle", "steps": [{"op": "PeerFaults", "stop": "ahead"}]} for _ in range(3 * reps)]
         for i, sc in enumerate(scen):
             sc["id"] = i
     applied, stats = harness(v, prop, scen, parallel=6, timeout=90)
